@@ -96,6 +96,29 @@ class Eq(Suite):
             if not any(B):
                 B = [[[names[0]]]]
             cases.append({"A": A, "B": B, "kind": kind})
+        # different datasets that agree on every per-element / per-position summary: the heads (over X) and the tails (over Y) of two
+        # rankings are exchanged - each element keeps the same multiset of positions, each position the same multiset of buckets, the
+        # sizes, the universe and the flags are the same; only the rankings themselves differ
+        for _ in range(120 if tier == "quick" else 1500):
+            pool = rng.choice(POOLS)
+            n = rng.randint(4, 6)
+            names = pool[:n]
+            rng.shuffle(names)
+            cut = rng.randint(2, n - 2)
+            X, Y = names[:cut], names[cut:]
+            tied = rng.random() < 0.4
+            def arrange(els):
+                els = list(els)
+                rng.shuffle(els)
+                if tied and len(els) >= 3 and rng.random() < 0.5:
+                    return [els[:2]] + [[e] for e in els[2:]]
+                return [[e] for e in els]
+            h1, h2, t1, t2 = arrange(X), arrange(X), arrange(Y), arrange(Y)
+            extra = [arrange(names) for _ in range(rng.randint(0, 2))]
+            A = [h1 + t1, h2 + t2] + extra
+            B = [h1 + t2, h2 + t1] + [[list(b) for b in r] for r in extra]
+            rng.shuffle(B)
+            cases.append({"A": A, "B": B, "kind": "exchanged_tails"})
         # datasets with a past: already compared (and read in every way), then modified in place; what is judged is == on the datasets
         # as they are afterwards (their rankings are observed after the modification)
         for c in [dict(c) for c in rng.sample(cases, 80 if tier == "quick" else 800)]:
